@@ -42,7 +42,9 @@ exist independently of any text.  For every writer route of xtuml/persist.py
      equal the links the real in-memory model holds, and `linksOf` of the metamodel the Lean side builds from the
      written text equals the links of the really reloaded model; the second-round texts (serialize_database of the
      metamodel rebuilt from the database text, serialize_instances of the metamodel rebuilt from the INSERT statements
-     alone) equal the texts the implementation writes from its reloaded metamodels.
+     alone) equal the texts the implementation writes from its reloaded metamodels; the token streams of the two database
+     texts, from the hand matchers and from the regex engine on the parse trees generated from the `t_*` regexes, equal
+     those of the real PLY lexer.
 """
 import hashlib
 import math
